@@ -28,6 +28,19 @@ pub fn corpus() -> Vec<(String, Case)> {
     }
     // folding, S3, token, rich path/query
     let now = e2e::base_instant();
+    // the same credential with different (unsigned) session tokens, and a provider whose answer depends on the token
+    for tok in ["alice", "bob", "carol"] {
+        let mut p = e2e::base_plan(Carrier::Header);
+        p.token = Some(tok.to_string());
+        out.push((
+            format!("tok:{}", tok),
+            Case {
+                wire: WireReq::from_wire(&build(&p).wire),
+                cfg: Cfg::basic(now),
+                prov: ProvSpec::DeriveTokenPrincipal(vec![(e2e::ACCESS_KEY.to_string(), e2e::SECRET.to_string())]),
+            },
+        ));
+    }
     // refusals that stop half-way through an element (whatever partial work they did must leave no trace)
     for (name, path, query, body) in [
         ("poison:query-value-tail", "/", Some("Action=ListUsers%zz&b=2"), None),
@@ -167,7 +180,7 @@ impl IntoRequestBytes for PendingBody {
 
 // ---------------------------------------------------------------------------
 
-fn thread_body(cases: Vec<Case>) -> Body<String> {
+fn thread_body(cases: Vec<Case>, alloc_points: bool) -> Body<String> {
     Arc::new(move |tid: usize, s: Arc<Sched>| {
         // scheduling points: the library's own log records on this thread + provider events
         let s2 = s.clone();
@@ -176,13 +189,17 @@ fn thread_body(cases: Vec<Case>) -> Body<String> {
         let mut p: Provider = case.prov.to_provider();
         let s3 = s.clone();
         p.inner.lock().unwrap().on_event = Some(Arc::new(move || s3.point(tid)));
+        if alloc_points {
+            env::register_alloc_points(tid, &s);
+        }
         let r = sut::validate(&case.wire, &case.cfg, &mut p);
+        env::unregister_alloc_points();
         env::SCHED_HOOK.with(|h| *h.borrow_mut() = None);
         digest(&r)
     })
 }
 
-fn make_task(case: &Case, body_pending: u32, ready_pending: u32, fut_pending: u32) -> TaskFut<String> {
+pub fn make_task(case: &Case, body_pending: u32, ready_pending: u32, fut_pending: u32) -> TaskFut<String> {
     let case = case.clone();
     Box::pin(async move {
         let mut p = case.prov.to_provider().with_delays(ready_pending, fut_pending);
@@ -209,6 +226,11 @@ pub fn thread_jobs(thorough: bool) -> Vec<(Vec<&'static str>, u32, &'static str)
         (vec!["Query:s3-token", "header:scope"], pair_bound, "2 threads"),
         (vec!["header:valid", "query:valid", "header:wrong-signature"], if thorough { 3 } else { 2 }, "3 threads"),
     ];
+    // the same with every heap allocation as a further scheduling point (a preemption can then land between
+    // statements that no log record separates)
+    jobs.push((vec!["header:valid", "query:valid"], if thorough { 2 } else { 1 }, "2 threads, allocation points"));
+    jobs.push((vec!["Header:folded-form", "header:wrong-signature"], if thorough { 2 } else { 1 }, "2 threads, allocation points"));
+    jobs.push((vec!["tok:alice", "tok:bob", "tok:carol"], 2, "3 threads, same credential, different tokens"));
     if thorough {
         jobs.push((vec!["header:valid", "query:valid", "Header:folded-form", "header:expired"], 2, "4 threads"));
         jobs.push((vec!["Header:folded-form", "Query:folded-form", "Header:s3-token"], 3, "3 threads"));
@@ -229,7 +251,8 @@ pub fn threads_child(args: &[String]) -> i32 {
     let expect: Vec<String> = idxs.iter().map(|i| run_case(&corp[*i].1)).collect();
     env::set_log_mode(env::LOG_SCHED);
     let cases: Vec<Case> = idxs.iter().map(|i| corp[*i].1.clone()).collect();
-    let body = thread_body(cases);
+    let alloc_points = label.contains("allocation points");
+    let body = thread_body(cases, alloc_points);
     let cap: u64 = if thorough { 3_000_000 } else { 60_000 };
     let mut distinct: HashSet<Vec<String>> = HashSet::new();
     let mut hashes: Vec<u64> = Vec::new();
@@ -240,7 +263,8 @@ pub fn threads_child(args: &[String]) -> i32 {
     let mut too_many_blocked = false;
     let forked = args.get(3).map(|s| s.as_str()) == Some("forked");
     let explore = if forked { sched::explore_threads_forked } else { sched::explore_threads::<String> };
-    let stats = explore(idxs.len(), body.clone(), *bound, 400, cap, &mut |choices, x| {
+    let horizon = if alloc_points { 20_000 } else { 400 };
+    let stats = explore(idxs.len(), body.clone(), *bound, horizon, cap, &mut |choices, x| {
         points_total += x.points.len() as u64;
         hashes.push(h64(&(j, choices)));
         if let Some(d) = &x.diverged {
@@ -635,6 +659,9 @@ pub fn run(ctx: &Ctx) -> Report {
             (vec![by_name("Header:folded-form"), by_name("Query:folded-form")], (1, 2, 1)),
             (vec![by_name("header:valid"), by_name("header:expired")], (2, 2, 2)),
             (vec![by_name("header:valid"), by_name("query:valid"), by_name("Header:folded-form")], (1, 1, 0)),
+            (vec![by_name("tok:alice"), by_name("tok:bob"), by_name("tok:carol")], (0, 0, 1)),
+            (vec![by_name("tok:alice"), by_name("tok:bob"), by_name("tok:carol")], (0, 1, 1)),
+            (vec![by_name("header:valid"), by_name("header:wrong-signature"), by_name("header:valid")], (0, 0, 2)),
         ];
         if thorough {
             sets.push((vec![by_name("header:valid"), by_name("query:valid"), by_name("Header:folded-form")], (1, 1, 1)));
